@@ -8,7 +8,7 @@ ENV = dict(os.environ, GOFLAGS='-mod=mod', GOPROXY='off', GOSUMDB='off', GOTOOLC
 dst = f'/verif/seeded/{sid}'
 os.makedirs(dst, exist_ok=True)
 for f in ('patch.diff', 'demo_test.go', 'notes.txt'):
-    if os.path.exists(os.path.join(src, f)):
+    if os.path.exists(os.path.join(src, f)) and os.path.abspath(src) != os.path.abspath(dst):
         shutil.copy(os.path.join(src, f), os.path.join(dst, f))
 demo = open(os.path.join(dst, 'demo_test.go')).read()
 tests = re.findall(r'^func (Test\w+)\(', demo, re.M)
@@ -57,5 +57,10 @@ finally:
     subprocess.run(['git', '-C', '/repo', 'checkout', '--', '.'], check=True)
 meta['detected_by'] = [p for p, c in meta['checks'].items() if c['exit'] == 1 and c['violations'] > 0]
 meta['needs_to_manifest'] = open(os.path.join(dst, 'notes.txt')).read()[:1500] if os.path.exists(os.path.join(dst, 'notes.txt')) else ''
+fr = f'/verif/seeded/first_round/{sid}.meta.json'
+if os.path.exists(fr):
+    old = json.load(open(fr))
+    meta['history'] = [{'round': 1, 'note': 'result of the checks as they stood when the change was first evaluated; misses led to the strengthened contracts described in DESIGN.md 12.7',
+                        'detected_by': old.get('detected_by'), 'checks': old.get('checks')}]
 json.dump(meta, open(os.path.join(dst, 'meta.json'), 'w'), indent=1)
 print(sid, 'valid:', meta.get('demo_passes_without_change'), meta.get('demo_fails_with_change'), meta.get('suite_passes_with_change'), 'detected_by:', meta['detected_by'], {p: (c['exit'], c['obligations'][:3]) for p, c in meta['checks'].items()})
